@@ -13,7 +13,8 @@ package control
 //
 //   reset | mode <m> | boot <n> | adv <ns> | dns <host> <qtype> <ttl ns> <key|-> | rm <key> | evict <key>
 //   rmf <basekey> | reload | close | dnsresp <resp> <hasq> <rcodeok> <qname> <qtype> <ttl|-> <key|->
-//   has <name> <4|6> | look <name> | cdt <ob> <dst> <name> <ans>*
+//   has <name> <4|6> | look <name> | cdt <ob> <dst> <name> <ans>* | cdt2 … (second call while the probe is in flight)
+//   evicted <key>* (what one real evictExpiredDnsCache run removed) | cfg <dial_mode value|absent> (real config parse)
 //   dial <ob> <dst> <name> <rt> <nOut> <failfirst> <ans>*   (TCP routeDial; UDP never uses this target, see note)
 //   norm|pa|shp|iplike|canon <s> | jhp <h> <p> | ap <dst> | resv <n>
 
@@ -25,6 +26,7 @@ import (
 	"net"
 	"net/netip"
 	"os"
+	"sort"
 	"strconv"
 	"strings"
 	"sync"
@@ -354,6 +356,8 @@ type c18World struct {
 	script  map[string][]string // probe answers per name, one token per resolver
 	probed  map[string]bool     // names for which a POSITIVE probe completed in this episode
 	calls   int
+	perRes  map[int]int   // resolver index -> calls during the current op
+	hold    chan struct{} // non-nil: the first resolver call of a probe blocks until it is closed
 	allOuts []*outbound.DialerGroup
 	matcher *RoutingMatcher
 	log     *logrus.Logger
@@ -383,6 +387,8 @@ func (w *c18World) reset() {
 	w.cp.dnsController = ctrl
 	w.script = map[string][]string{}
 	w.probed = map[string]bool{}
+	w.perRes = map[int]int{}
+	w.hold = nil
 }
 
 func (w *c18World) newCtrl() *DnsController {
@@ -434,6 +440,19 @@ func c18BuildMatcher(t *testing.T, log *logrus.Logger) *RoutingMatcher {
 		dom("suffix", "re.test", "g2"),
 		dom("full", "direct.test", "direct"),
 		dom("keyword", "blk", "block"),
+		// rules on the packet metadata chooseProxyDialer has to hand to Route unchanged
+		{
+			AndFunctions: []*config_parser.Function{{Name: consts.Function_Dscp, Params: []*config_parser.Param{{Val: "7"}}}},
+			Outbound:     config_parser.Function{Name: "g3"},
+		},
+		{
+			AndFunctions: []*config_parser.Function{{Name: consts.Function_ProcessName, Params: []*config_parser.Param{{Val: "curl"}}}},
+			Outbound:     config_parser.Function{Name: "g2"},
+		},
+		{
+			AndFunctions: []*config_parser.Function{{Name: consts.Function_Mac, Params: []*config_parser.Param{{Val: "02:00:00:00:00:01"}}}},
+			Outbound:     config_parser.Function{Name: "direct"},
+		},
 		{
 			AndFunctions: []*config_parser.Function{{Name: consts.Function_Ip, Params: []*config_parser.Param{{Val: "198.51.100.0/24"}}}},
 			Outbound:     config_parser.Function{Name: "g3"},
@@ -565,10 +584,19 @@ func TestVerifC18(t *testing.T) {
 	resolveIp46ForRealDomainProbe = func(ctx context.Context, _ netproxy.Dialer, dns netip.AddrPort, host string, network string, race bool) (*netutils.Ip46, error, error) {
 		w.calls++
 		idx := int(dns.Addr().As4()[3]) - 1
+		w.perRes[idx]++
+		if h := w.hold; h != nil {
+			<-h // the probe stays in flight until the harness releases it
+		}
 		toks := w.script[host]
 		tok := "0011"
 		if idx >= 0 && idx < len(toks) {
 			tok = toks[idx]
+		}
+		if tok == "T" {
+			// the resolver does not answer: the REAL probe context (realDomainProbeTimeout) expires
+			<-ctx.Done()
+			return &netutils.Ip46{}, ctx.Err(), ctx.Err()
 		}
 		res := &netutils.Ip46{}
 		if tok[0] == '1' {
@@ -660,6 +688,9 @@ func TestVerifC18(t *testing.T) {
 				a := make([]string, nboot)
 				for i := range a {
 					a[i] = c18AnsToks[r.Intn(len(c18AnsToks))]
+					if r.Chance(0.04) {
+						a[i] = "T"
+					}
 				}
 				w.script[name] = a
 				return a
@@ -685,6 +716,29 @@ func TestVerifC18(t *testing.T) {
 						keys = append(keys, w.ctrl.cacheKey(fq, qtype))
 						return "ok"
 					}))
+				}
+			}
+			// wait for the asynchronous probe; a resolver scripted "T" only returns when the real probe
+			// context (realDomainProbeTimeout) expires, so virtual time has to pass
+			hasT := func(ans []string) bool {
+				for _, a := range ans {
+					if a == "T" {
+						return true
+					}
+				}
+				return false
+			}
+			settle := func(ans []string) {
+				synctest.Wait()
+				if hasT(ans) {
+					time.Sleep(600 * time.Millisecond)
+					synctest.Wait()
+				}
+			}
+			afterT := func(ans []string) {
+				if hasT(ans) {
+					stats.Inc("probe.timeout-scripted")
+					st.Emit("adv 600000000", "ok")
 				}
 			}
 			nOps := 12 + r.Intn(30)
@@ -758,7 +812,65 @@ func TestVerifC18(t *testing.T) {
 					stats.Inc("op.rmf")
 					st.Emit("rmf "+c18Hex(bk), VRecover(func() string { w.ctrl.RemoveDnsRespCacheFamily(bk); return "ok" }))
 				case c < 0:
-					switch r.Intn(6) {
+					switch r.Intn(9) {
+					case 6, 7: // one run of the cache janitor: time-based eviction, optimistic window, LRU
+						cfgk := r.Intn(3)
+						var evicted []string
+						out := VRecover(func() string {
+							before := map[string]bool{}
+							w.ctrl.dnsCache.Range(func(k, _ any) bool { before[k.(string)] = true; return true })
+							switch cfgk {
+							case 1:
+								w.ctrl.optimisticCacheEnabled.Store(true)
+								w.ctrl.optimisticCacheTtl.Store(5)
+							case 2:
+								w.ctrl.maxCacheSize.Store(2)
+							}
+							w.ctrl.evictExpiredDnsCache(time.Now())
+							w.ctrl.optimisticCacheEnabled.Store(false)
+							w.ctrl.optimisticCacheTtl.Store(0)
+							w.ctrl.maxCacheSize.Store(0)
+							w.ctrl.dnsCache.Range(func(k, _ any) bool { delete(before, k.(string)); return true })
+							for k := range before {
+								evicted = append(evicted, k)
+							}
+							sort.Strings(evicted)
+							return "ok"
+						})
+						stats.Inc("op.janitor")
+						stats.Add("op.janitor.evicted", len(evicted))
+						if cfgk == 2 && len(evicted) > 0 {
+							stats.Inc("op.janitor.lru-evicted")
+						}
+						hx := make([]string, len(evicted))
+						for i, k := range evicted {
+							hx[i] = c18Hex(k)
+						}
+						st.Emit(strings.TrimRight("evicted "+strings.Join(hx, " "), " "), out)
+					case 8: // dial_mode through the real config path: text -> config_parser.Parse -> config.New -> ParseDialMode
+						val := []string{"ip", "domain", "domain+", "domain++", "", "Domain", "domain+++", "ip ", "domain-", "absent", "absent"}[r.Intn(11)]
+						tok := "absent"
+						line := ""
+						if val != "absent" {
+							tok = c18Hex(val)
+							line = "dial_mode: '" + val + "'"
+						}
+						stats.Inc("op.cfg")
+						st.Emit("cfg "+tok, VRecover(func() string {
+							secs, err := config_parser.Parse("global {\n" + line + "\n}\nrouting {\nfallback: direct\n}\n")
+							if err != nil {
+								return "parse-err"
+							}
+							conf, err := config.New(secs)
+							if err != nil {
+								return "config-err:" + err.Error()
+							}
+							dm, err := consts.ParseDialMode(conf.Global.DialMode)
+							if err != nil {
+								return "err"
+							}
+							return "mode=" + string(dm)
+						}))
 					case 0: // reload: clone the cache, restore it into a fresh store
 						stats.Inc("op.reload")
 						st.Emit("reload", VRecover(func() string {
@@ -921,7 +1033,7 @@ func TestVerifC18(t *testing.T) {
 					st.Emit(strings.TrimRight(op, " "), VRecover(func() string {
 						w.calls = 0
 						target, reroute, dialIp := w.cp.ChooseDialTarget(consts.OutboundIndex(ob), dst, d)
-						synctest.Wait() // let the asynchronous probe (if any) finish
+						settle(ans) // let the asynchronous probe (if any) finish
 						out := fmt.Sprintf("t=%s rr=%s ip=%s probe=%s", c18Hex(target), c18Bool(reroute), c18Bool(dialIp), c18Bool(w.calls > 0))
 						// implementation-side oracle (no model): a name is used in domain mode only if it
 						// has unexpired knowledge or a POSITIVE probe of this exact string happened
@@ -967,6 +1079,49 @@ func TestVerifC18(t *testing.T) {
 						}
 						return out
 					}))
+					afterT(ans)
+					if r.Chance(0.12) { // a second call for the same flow while the probe is in flight
+						d2, _ := gen.domain(pool)
+						if mode == "domain" && r.Chance(0.7) {
+							d2 = c18Names[r.Intn(len(c18Names))]
+						}
+						ob2 := 2 + r.Intn(3)
+						dst2 := gen.dst()
+						ans2 := answers(d2)
+						for i := range ans2 {
+							if ans2[i] == "T" {
+								ans2[i] = "0011"
+							}
+						}
+						stats.Inc("op.cdt2")
+						st.Emit(strings.TrimRight(fmt.Sprintf("cdt2 %d %s %s %s", ob2, c18DstTok(dst2), c18Hex(d2), strings.Join(ans2, " ")), " "), VRecover(func() string {
+							w.calls = 0
+							w.perRes = map[int]int{}
+							w.hold = make(chan struct{})
+							t1, rr1, ip1 := w.cp.ChooseDialTarget(consts.OutboundIndex(ob2), dst2, d2)
+							synctest.Wait() // the probe (if any) is now blocked inside the first resolver call
+							inFlight := w.calls > 0
+							t2, rr2, ip2 := w.cp.ChooseDialTarget(consts.OutboundIndex(ob2), dst2, d2)
+							synctest.Wait()
+							close(w.hold)
+							w.hold = nil
+							synctest.Wait()
+							if inFlight {
+								stats.Inc("op.cdt2.in-flight")
+							}
+							dup := false
+							for _, n := range w.perRes {
+								if n > 1 {
+									dup = true
+								}
+							}
+							if dup {
+								stats.Inc("op.cdt2.resolver-asked-twice") // not compared: how often resolvers are asked is not the property
+							}
+							return fmt.Sprintf("t=%s rr=%s ip=%s ; t=%s rr=%s ip=%s probe=%s", c18Hex(t1), c18Bool(rr1), c18Bool(ip1),
+								c18Hex(t2), c18Bool(rr2), c18Bool(ip2), c18Bool(w.calls > 0))
+						}))
+					}
 				default: // routeDial: what is actually sent to the node dialer
 					ob := []int{2, 3, 4, 2, 3, 4, 0, 1, 0xFD, 0xFD, 7, 0xFC}[r.Intn(12)]
 					dst := gen.dst()
@@ -977,10 +1132,33 @@ func TestVerifC18(t *testing.T) {
 					ans := answers(d)
 					nOut := []int{5, 5, 5, 5, 5, 5, 5, 5, 4, 3, 2}[r.Intn(11)]
 					fail := r.Chance(0.25)
+					if fail {
+						for i := range ans {
+							if ans[i] == "T" {
+								ans[i] = "0011"
+							}
+						}
+						w.script[d] = ans
+					}
 					proto := consts.L4ProtoType_TCP
+					// packet metadata the matcher has rules on: chooseProxyDialer must pass them to Route unchanged
+					var meta proxyDialParam
+					metaTok := "m=-"
+					if r.Chance(0.35) {
+						switch r.Intn(3) {
+						case 0:
+							meta.Dscp, metaTok = 7, "m=dscp7"
+						case 1:
+							copy(meta.ProcessName[:], "curl")
+							metaTok = "m=curl"
+						default:
+							meta.Mac, metaTok = [6]uint8{2, 0, 0, 0, 0, 1}, "m=mac"
+						}
+						stats.Inc("dial.with-metadata")
+					}
 					w.cp.outbounds = w.allOuts[:nOut]
 					rt := VRecover(func() string {
-						o, _, _, err := w.cp.Route(src, dst, d, proto, &bpfRoutingResult{Outbound: uint8(ob)})
+						o, _, _, err := w.cp.Route(src, dst, d, proto, &bpfRoutingResult{Outbound: uint8(ob), Mac: meta.Mac, Pname: meta.ProcessName, Dscp: meta.Dscp})
 						if err != nil {
 							return "err"
 						}
@@ -991,7 +1169,7 @@ func TestVerifC18(t *testing.T) {
 						stats.Sample("route-crash " + c18Hex(d) + " " + rt)
 						rt = "err"
 					}
-					op := fmt.Sprintf("dial %d %s %s %s %d %s %s", ob, c18DstTok(dst), c18Hex(d), rt, nOut, c18Bool(fail), strings.Join(ans, " "))
+					op := fmt.Sprintf("dial %d %s %s %s %d %s %s %s", ob, c18DstTok(dst), c18Hex(d), rt, nOut, c18Bool(fail), metaTok, strings.Join(ans, " "))
 					stats.Inc("dial.mode." + mode)
 					stats.Inc("dial.class." + class)
 					if fail {
@@ -1003,9 +1181,10 @@ func TestVerifC18(t *testing.T) {
 						failNext = fail
 						_, res, err := w.cp.routeDial(context.Background(), &proxyDialParam{
 							Outbound: consts.OutboundIndex(ob), Domain: d, Src: src, Dest: dst, Network: "tcp",
+							Mac: meta.Mac, Dscp: meta.Dscp, ProcessName: meta.ProcessName,
 						})
 						failNext = false
-						synctest.Wait()
+						settle(ans)
 						if fail {
 							buildGroups()
 						}
@@ -1040,6 +1219,7 @@ func TestVerifC18(t *testing.T) {
 						}
 						return strings.Join(parts, " ; ") + " probe=" + c18Bool(w.calls > 0)
 					}))
+					afterT(ans)
 				}
 			}
 			w.cp.cancel()
